@@ -48,7 +48,12 @@ pub broadcast axiom fn axiom_f64_div_total(a: f64, b: f64)
 pub broadcast axiom fn axiom_f64_neg_total(a: f64)
     ensures #[trigger] a.neg_req();
 
+// the one value fact used (closeness: an empty distance list sums to 0.0 and 0.0 > 0.0 is false): IEEE `<` is irreflexive
+pub broadcast axiom fn axiom_f64_lt_irreflexive(a: f64)
+    ensures !#[trigger] flt(a, a);
+
 pub broadcast group group_f64_axioms {
+    axiom_f64_lt_irreflexive,
     axiom_f64_lt, axiom_f64_gt, axiom_f64_le, axiom_f64_ge, axiom_f64_eq, axiom_f64_ne,
     axiom_f64_add, axiom_f64_sub, axiom_f64_mul, axiom_f64_div, axiom_f64_neg,
     axiom_f64_add_total, axiom_f64_sub_total, axiom_f64_mul_total, axiom_f64_div_total, axiom_f64_neg_total,
